@@ -47,6 +47,9 @@ def gen_case(r, small=None):
     if small == 'abort1':      # more chunks than the queue holds, one worker: only the abort flag lets the producer stop after a failure
         mn = mx = 12
         return {'params': (mn, mx), 'files': {'f0': r.randbytes(12 * 14)}, 'n': 1, 'async': r.random() < 0.5, 'encrypted': False, 'shape': small}
+    if small == 'stall1':      # one worker, few chunks: the loop thread is held between the two halves of the workers' exit test
+        mn = mx = 16
+        return {'params': (mn, mx), 'files': {'a': r.randbytes(32), 'b': r.randbytes(16 * r.choice([3, 4, 5]))}, 'n': 1, 'async': r.random() < 0.5, 'encrypted': False, 'shape': small}
     if small == 'd4':          # two chunks of one file → two loaders, one pending set
         mn = mx = 32
         return {'params': (mn, mx), 'files': {'f0': r.randbytes(64)}, 'n': 2, 'async': False, 'encrypted': False, 'shape': small}
@@ -401,7 +404,7 @@ def exc_name(e):
     return type(e).__name__
 
 
-def run_snapshot_schedule(prep, spec, r, flags, fail=None, quick=True):
+def run_snapshot_schedule(prep, spec, r, flags, fail=None, quick=True, hold_empty=False):
     """→ result dict for one controlled snapshot"""
     case = prep.case
     n = case['n']
@@ -417,7 +420,8 @@ def run_snapshot_schedule(prep, spec, r, flags, fail=None, quick=True):
     repo = R.unlock(be, key=prep.key, concurrent=n)
     strat = make_strategy(spec, r)
     ctl = S.Controller(strat, n, names=prep.names, hang_after=3.0 if quick else 6.0, fail_at=fail,
-                       gate_producer=(case.get('shape') not in ('snap3', 'snap4x')))
+                       gate_producer=(case.get('shape') not in ('snap3', 'snap4x')) and not hold_empty)
+    ctl.hold_empty = hold_empty
     ctl.loc_of_digest = repo._chunk_digest_to_location
     prep.box.ctl = ctl
     t0 = time.time()
@@ -621,6 +625,9 @@ def do_item(arg):
                     if bound >= 2 and second:
                         for (i, a), (j, b) in rr.sample(second, min(len(second), item.get('budget2', 0))):
                             results.append(run_restore_schedule(prep, ('listed', {str(i): a, str(j): b}, mode), r, flags, sc, 'b', quick=quick))
+            elif kind == 'snap-stall-empty':
+                for rep in range(item.get('reps', 2)):
+                    results.append(run_snapshot_schedule(prep, ('fifo',), rng_for(seed, 'C09-stall', item['id'], rep), flags, quick=quick, hold_empty=True))
             elif kind == 'cli-failure':
                 pass
             elif kind == 'random':
@@ -707,6 +714,8 @@ def plan(seed, tier):
     for rep in range(2 if quick else 6):
         items.append({'id': f'sh3-{rep}', 'kind': 'restore-preempt', 'case': f'sh3-{rep}', 'small': 'share3', 'bound': 1 if quick else 2, 'budget': 30 if quick else 120,
                       'budget2': 0 if quick else 150})
+    for rep in range(3 if quick else 12):
+        items.append({'id': f'stall{rep}', 'kind': 'snap-stall-empty', 'case': f'st{rep}', 'small': 'stall1', 'reps': 2})
     items.append({'id': 'abort1', 'kind': 'random', 'case': 'ab1', 'small': 'abort1', 'strategies': [['random'], ['fifo']], 'fail_first': True, 'time_box': 40})
     for n in ((1, 2, 3) if quick else (1, 2, 3, 5)):
         items.append({'id': f'cli{n}', 'kind': 'cli-failure', 'case': f'cli{n}', 'n': n, 'chunks': 12 if n < 5 else 24, 'pseed': seed})
